@@ -8,7 +8,12 @@ use crate::spec::*;
 use proptest::prelude::*;
 use proptest::test_runner::{RngAlgorithm, TestRng};
 
-pub struct Rg(pub TestRng);
+/// Source of choices for the generators: a proptest ChaCha RNG (property-based engines) or a byte
+/// string (coverage-guided fuzzing: one or two bytes per choice, so byte mutations stay local).
+pub enum Rg {
+    Rng(TestRng),
+    Bytes { data: Vec<u8>, pos: usize },
+}
 
 impl Rg {
     pub fn from_seed(seed: u64) -> Rg {
@@ -16,16 +21,52 @@ impl Rg {
         for i in 0..4 {
             b[i * 8..i * 8 + 8].copy_from_slice(&crate::derive_seed(seed, "gen", i as u64, 0).to_le_bytes());
         }
-        Rg(TestRng::from_seed(RngAlgorithm::ChaCha, &b))
+        Rg::Rng(TestRng::from_seed(RngAlgorithm::ChaCha, &b))
+    }
+    pub fn from_bytes(data: &[u8]) -> Rg {
+        Rg::Bytes { data: data.to_vec(), pos: 0 }
+    }
+    fn byte(&mut self) -> u8 {
+        match self {
+            Rg::Rng(r) => r.next_u32() as u8,
+            Rg::Bytes { data, pos } => {
+                let b = data.get(*pos).copied().unwrap_or(0);
+                *pos += 1;
+                b
+            }
+        }
+    }
+    pub fn exhausted(&self) -> bool {
+        match self {
+            Rg::Rng(_) => false,
+            Rg::Bytes { data, pos } => *pos >= data.len(),
+        }
     }
     pub fn u64(&mut self) -> u64 {
-        self.0.next_u64()
+        match self {
+            Rg::Rng(r) => r.next_u64(),
+            Rg::Bytes { .. } => {
+                let mut v = 0u64;
+                for _ in 0..8 {
+                    v = (v << 8) | self.byte() as u64;
+                }
+                v
+            }
+        }
     }
     pub fn below(&mut self, n: usize) -> usize {
         if n == 0 {
-            0
-        } else {
-            (self.u64() % n as u64) as usize
+            return 0;
+        }
+        match self {
+            Rg::Rng(_) => (self.u64() % n as u64) as usize,
+            Rg::Bytes { .. } => {
+                if n <= 256 {
+                    self.byte() as usize % n
+                } else {
+                    (((self.byte() as usize) << 8) | self.byte() as usize) % n
+                }
+            }
         }
     }
     pub fn range(&mut self, lo: usize, hi_incl: usize) -> usize {
@@ -33,14 +74,14 @@ impl Rg {
     }
     /// true with probability num/den
     pub fn chance(&mut self, num: u32, den: u32) -> bool {
-        (self.u64() % den as u64) < num as u64
+        (self.below(den as usize) as u32) < num
     }
     pub fn pick<'a, T>(&mut self, v: &'a [T]) -> &'a T {
         &v[self.below(v.len())]
     }
     pub fn weighted<T: Clone>(&mut self, v: &[(u32, T)]) -> T {
         let tot: u32 = v.iter().map(|x| x.0).sum();
-        let mut r = (self.u64() % tot as u64) as u32;
+        let mut r = self.below(tot as usize) as u32;
         for (w, t) in v {
             if r < *w {
                 return t.clone();
@@ -162,6 +203,34 @@ fn gen_fields(rg: &mut Rg, kind: Kind, n: usize, pool: &[FieldTy], e: &EnumSpec)
             FieldSpec { name: if kind == Kind::Named { Some(names[i].to_string()) } else { None }, ty, default_with: false }
         })
         .collect()
+}
+
+/// harmless enum-level attributes at random places among derive / repr / strum attributes
+pub fn add_noise(rg: &mut Rg, e: &mut EnumSpec) {
+    let pool = ["/// Enum level documentation.", "#[allow(dead_code)]", "#[non_exhaustive]", "#[must_use]", "#[doc(hidden)]", "#[doc = \"attr doc\"]", "/** block doc */"];
+    let n = rg.weighted(&[(3, 0usize), (3, 1), (2, 2), (1, 3)]);
+    for _ in 0..n {
+        let t = *rg.pick(&pool);
+        if e.noise.iter().any(|(_, x)| x == t) {
+            continue;
+        }
+        let slot = rg.below(5) as u8;
+        e.noise.push((slot, t.to_string()));
+    }
+}
+
+/// attributes of a disabled variant: `disabled` alone, or sharing its list / its variant with
+/// harmless companions in any order
+pub fn disabled_attrs(rg: &mut Rg, tag: usize) -> Vec<Vec<VAttr>> {
+    let mut attrs = vec![VAttr::Disabled];
+    if rg.chance(1, 2) {
+        attrs.push(match rg.below(3) {
+            0 => VAttr::Serialize(format!("dis-{}", tag)),
+            1 => VAttr::Message(format!("disabled variant {}", tag)),
+            _ => VAttr::Props(vec![("k".to_string(), PropVal::Int(tag as i64, false))]),
+        });
+    }
+    layout(rg, attrs, false)
 }
 
 /// make sure every generic parameter is used by some field (rustc rejects unused parameters)
@@ -381,6 +450,7 @@ pub fn gen_string(rg: &mut Rg, cfg: &GenCfg) -> EnumSpec {
     };
     let has_const_into = e.const_into_str();
     let mut default_used = false;
+    let mut empty_used = false;
     for vi in 0..n {
         let mut v = VariantSpec::unit(idents[vi]);
         let kind = if cfg.allow_fields { rg.weighted(&[(5, Kind::Unit), (3, Kind::Tuple), (3, Kind::Named)]) } else { Kind::Unit };
@@ -468,10 +538,17 @@ pub fn gen_string(rg: &mut Rg, cfg: &GenCfg) -> EnumSpec {
                 }
             }
             if mode == 1 || mode == 3 {
-                attrs.push(VAttr::ToString(next_stem(rg)));
+                // the empty literal is a legal (and boundary) name
+                if !empty_used && !cfg.plain_literals && rg.chance(1, 10) {
+                    empty_used = true;
+                    attrs.push(VAttr::ToString(String::new()));
+                } else {
+                    attrs.push(VAttr::ToString(next_stem(rg)));
+                }
             }
         }
-        if cfg.allow_disabled && !want_default && rg.chance(1, 6) {
+        // a disabled default variant is legal: it must neither be produced nor act as the catch-all
+        if cfg.allow_disabled && ((!want_default && rg.chance(1, 6)) || (want_default && rg.chance(1, 4))) {
             attrs.push(VAttr::Disabled);
         }
         if cfg.allow_ci && (rg.chance(1, 3) || (cfg.ci_heavy && rg.chance(1, 2))) {
@@ -484,6 +561,7 @@ pub fn gen_string(rg: &mut Rg, cfg: &GenCfg) -> EnumSpec {
     // braces in non-placeholder literals confuse Display's placeholder scanner: only C17 plays with them
     use_generics(&mut e);
     repair_spellings(&mut e);
+    add_noise(rg, &mut e);
     e
 }
 
@@ -510,6 +588,8 @@ pub struct IterCfg {
     pub fieldless: bool,
     pub naming: bool,
     pub discriminants: bool,
+    /// allow adjacent variants with identical canonical names (no parser derived)
+    pub dup_names: bool,
 }
 
 /// Iter-family enum (C04 C05 C08)
@@ -562,6 +642,9 @@ pub fn gen_iter(rg: &mut Rg, cfg: &IterCfg) -> EnumSpec {
     rg.shuffle(&mut stems);
     let mut si = 0;
     let mut next_disc: i128 = 0;
+    let all_explicit = cfg.discriminants && cfg.fieldless && rg.chance(1, 4);
+    let mut explicit_vals: Vec<i128> = (0..n as i128).map(|i| i * 3 + 1).collect();
+    rg.shuffle(&mut explicit_vals);
     for vi in 0..n {
         let mut v = VariantSpec::unit(idents[vi % idents.len()]);
         if vi >= idents.len() {
@@ -574,6 +657,12 @@ pub fn gen_iter(rg: &mut Rg, cfg: &IterCfg) -> EnumSpec {
         let mut attrs = Vec::new();
         if (mask >> vi) & 1 == 1 {
             attrs.push(VAttr::Disabled);
+            if !cfg.naming && rg.chance(1, 2) {
+                attrs.push(match rg.below(2) {
+                    0 => VAttr::Serialize(format!("dis-{}", vi)),
+                    _ => VAttr::Message(format!("disabled {}", vi)),
+                });
+            }
         }
         if cfg.naming {
             match rg.weighted(&[(4, 0u8), (2, 1), (2, 2)]) {
@@ -594,9 +683,14 @@ pub fn gen_iter(rg: &mut Rg, cfg: &IterCfg) -> EnumSpec {
                 _ => {}
             }
         }
-        if cfg.discriminants && rg.chance(1, 3) {
+        if cfg.discriminants && !all_explicit && rg.chance(1, 3) {
             next_disc += rg.range(0, 5) as i128;
             v.disc = Some(Disc { text: format!("{}", next_disc), value: next_disc });
+        }
+        if all_explicit {
+            // every variant explicit, in no particular order
+            let val = explicit_vals[vi];
+            v.disc = Some(Disc { text: format!("{}", val), value: val });
         }
         next_disc += 1;
         v.groups = layout(rg, attrs, false);
@@ -604,6 +698,21 @@ pub fn gen_iter(rg: &mut Rg, cfg: &IterCfg) -> EnumSpec {
     }
     use_generics_disabled(&mut e);
     repair_spellings(&mut e);
+    if cfg.dup_names && !e.derives("EnumString") {
+        // without a parser nothing forbids two variants with the same name: adjacent duplicates
+        for vi in 1..e.variants.len() {
+            if rg.chance(1, 6) && e.variants[vi].kind == e.variants[vi - 1].kind {
+                let name = model::base_name(&e, &e.variants[vi - 1]);
+                let dis = e.variants[vi].disabled();
+                let mut a = vec![VAttr::ToString(name)];
+                if dis {
+                    a.push(VAttr::Disabled);
+                }
+                e.variants[vi].groups = layout(rg, a, false);
+            }
+        }
+    }
+    add_noise(rg, &mut e);
     e
 }
 
@@ -680,11 +789,12 @@ pub fn gen_repr(rg: &mut Rg, repr: Option<&str>, derives: &[String]) -> EnumSpec
             }
             prev = Some(val);
             if rg.chance(1, 4) {
-                v.groups = vec![vec![VAttr::Disabled]];
+                v.groups = disabled_attrs(rg, vi);
             }
             e.variants.push(v);
         }
         use_generics(&mut e);
+        add_noise(rg, &mut e);
         // validity: unique, in range (rustc rejects duplicates / overflow)
         let ds = model::discs(&e);
         let mut s = ds.clone();
@@ -754,10 +864,12 @@ pub fn gen_shape(rg: &mut Rg) -> EnumSpec {
             }
         }
         if rg.chance(1, 6) {
-            v.groups = vec![vec![VAttr::Disabled]];
+            let tag = e.variants.len();
+            v.groups = disabled_attrs(rg, tag);
         }
         e.variants.push(v);
     }
+    add_noise(rg, &mut e);
     // generic carriers (not disabled)
     let uses = |e: &EnumSpec, t: FieldTy| e.variants.iter().any(|v| v.fields.iter().any(|f| f.ty == t));
     let mut need = vec![];
@@ -892,14 +1004,15 @@ pub fn gen_table(rg: &mut Rg, n_enabled: usize) -> EnumSpec {
         used.push(m);
         let mut v = VariantSpec::unit(id);
         if dis.contains(&e.variants.len()) {
-            v.groups = vec![vec![VAttr::Disabled]];
-        }
-        // unrelated attributes must not disturb the table
-        if rg.chance(1, 5) {
+            let tag = e.variants.len();
+            v.groups = disabled_attrs(rg, tag);
+        } else if rg.chance(1, 5) {
+            // unrelated attributes must not disturb the table
             v.groups.push(vec![VAttr::Serialize("x".into())]);
         }
         e.variants.push(v);
     }
+    add_noise(rg, &mut e);
     e
 }
 
@@ -943,6 +1056,21 @@ pub fn gen_disc(rg: &mut Rg) -> EnumSpec {
         let strumy = opts.derives.iter().any(|d| d.starts_with("strum::") && d != "strum::EnumIter" && d != "strum::FromRepr");
         if strumy && rg.chance(1, 2) {
             opts.passthrough.push(format!("strum(serialize_all = \"{}\")", rg.pick(&model::STYLES)));
+        }
+        // several pass-through attributes with the same path must all arrive
+        if strumy && rg.chance(1, 3) {
+            opts.passthrough.push(format!("strum(prefix = \"{}\")", rg.pick(&["p_", "kind/", "D"])));
+        }
+        if strumy && rg.chance(1, 4) {
+            opts.passthrough.push("strum(ascii_case_insensitive)".to_string());
+        }
+        if opts.passthrough.len() > 1 {
+            rg.shuffle(&mut opts.passthrough);
+            // sometimes written as one attribute list
+            if rg.chance(1, 2) {
+                let joined = opts.passthrough.join(", ");
+                opts.passthrough = vec![joined];
+            }
         }
         if rg.chance(1, 4) {
             opts.docs.push("The kind of thing.".into());
@@ -1011,6 +1139,7 @@ pub fn gen_disc(rg: &mut Rg) -> EnumSpec {
             e.variants.push(v);
         }
         e.disc_opts = Some(opts);
+        add_noise(rg, &mut e);
         let ds = model::discs(&e);
         let mut s = ds.clone();
         s.sort();
